@@ -20,6 +20,8 @@ use std::sync::Mutex;
 simcore::install_getrandom_shim!();
 
 const PROPERTY: &str = "C17";
+/// thorough tier: a quarter of the runs are 60..240 operations long
+static DEEP: AtomicBool = AtomicBool::new(false);
 
 // ------------------------------------------------------------------------------------------------
 // operations
@@ -309,7 +311,8 @@ fn generate(run_seed: u64) -> (Knobs, Vec<Op>) {
   let mut w = rng::stream(run_seed, rng::STREAM_WORKLOAD);
   let mut h = rng::stream(run_seed, rng::STREAM_HASH);
   let protocol = w.chance(1, 3);
-  let n_ops = w.range(5, 60);
+  let deep = DEEP.load(std::sync::atomic::Ordering::Relaxed) && w.chance(1, 4);
+  let n_ops = if deep { w.range(60, 240) } else { w.range(5, 60) };
   let ops = if protocol { generate_protocol(&mut w, n_ops) } else { generate_free(&mut w, n_ops) };
   (Knobs { mode: if protocol { "protocol" } else { "free" }, n_ops: ops.len(), hash_seed: h.next_u64() }, ops)
 }
@@ -961,8 +964,11 @@ fn main() {
 
   let tier = arg_value(&args, "--tier").unwrap_or_else(|| "quick".into());
   let default_runs: u64 = if tier == "thorough" { 20_000_000 } else { 200_000 };
+  if tier == "thorough" {
+    DEEP.store(true, std::sync::atomic::Ordering::Relaxed);
+  }
   let runs: u64 = arg_value(&args, "--runs").and_then(|s| s.parse().ok()).unwrap_or(default_runs);
-  let seconds: Option<u64> = arg_value(&args, "--seconds").and_then(|s| s.parse().ok());
+  let seconds: Option<u64> = arg_value(&args, "--seconds").and_then(|s| s.parse().ok()).or(if tier == "thorough" { Some(600) } else { None });
   let digests_path = arg_value(&args, "--digests");
 
   let start = std::time::Instant::now();
@@ -1050,7 +1056,7 @@ fn main() {
   let acc = acc.into_inner().unwrap();
   ev.samples.sort_by_key(|s| s["run_index"].as_u64());
   ev.extra.insert("runs_by_mode".into(), acc.mode_runs.to_json());
-  ev.extra.insert("bounds".into(), json!({"ops_per_run": "5..60 (protocol runs may exceed by one GC round)", "string_pool": string_pool().len(), "sweep_units": "0,1,2,3,len-1,len,len+1,10000,random"}));
+  ev.extra.insert("bounds".into(), json!({"ops_per_run": if tier == "thorough" { "5..60, a quarter of the runs 60..240" } else { "5..60 (protocol runs may exceed by one GC round)" }, "string_pool": string_pool().len(), "sweep_units": "0,1,2,3,len-1,len,len+1,10000,random"}));
   ev.extra.insert("miri_tier".into(), json!("run separately by ./check C17 thorough (cargo +nightly miri); its result is printed, not recorded here"));
 
   if let Some(p) = digests_path {
